@@ -188,3 +188,31 @@ Qed.
 
 (* symbolic execution helpers *)
 Ltac ramw := unfold in_ram_w, RAMB, RAME in *; lia.
+
+(* ---- word reads from ROM ---- *)
+Definition in_rom_w (a : Z) : Prop := 0 <= a /\ a + 4 <= 131072 /\ a mod 4 = 0.
+Definition romw (m : mach) (a : Z) : Z :=
+  mget (rom (mbus m)) a * 16777216 + mget (rom (mbus m)) (a + 1) * 65536
+  + mget (rom (mbus m)) (a + 2) * 256 + mget (rom (mbus m)) (a + 3).
+
+Lemma rd_word_rom m a : bus_wf (mbus m) -> in_rom_w a -> rd_word a m = Ok (romw m a) m.
+Proof.
+  intros W [H1 [H2 H3]]. unfold rd_word, liftb, bus_read_word.
+  rewrite (land3_zero a H3). cbn [negb]. unfold with_dev.
+  assert (G : get_device a = Some DRom) by (unfold get_device; replace (a <? 131072) with true by lia; reflexivity).
+  rewrite G. cbn [dev_read_word dev_mem].
+  destruct W as [[Rb [Rs Rr]] _ _ _]. unfold mem_read_word, mend, lift_r. rewrite Rb, Rs.
+  replace (a + 3 >=? 0 + 131072) with false by lia.
+  replace (in_vec (rom (mbus m)) (a - 0)) with true by (symmetry; apply in_vec_spec; lia).
+  replace (in_vec (rom (mbus m)) (a - 0 + 3)) with true by (symmetry; apply in_vec_spec; lia).
+  cbn [andb]. rewrite with_bus_eta. unfold romw. rewrite !Z.sub_0_r. reflexivity.
+Qed.
+
+Lemma romw_stw m a v x : romw (stw m a v) x = romw m x.
+Proof. unfold romw. destruct (other_devices_stw m a v) as [E _]. now rewrite E. Qed.
+Lemma romw_setR m i v x : romw (setR m i v) x = romw m x.
+Proof. reflexivity. Qed.
+
+(* single PSW bits through the mask operations *)
+Lemma testbit_clr32 x c k : Z.testbit (clr32 x c) k = Z.testbit x k && Z.testbit (not32 c) k.
+Proof. unfold clr32. apply Z.land_spec. Qed.
